@@ -19,8 +19,10 @@ executed `read_resp` removes the oldest entry `e` and returns `respValue` = `e`,
 FULL STATEMENT (not provable, and false for the code: candidate defect F5):
   theorem c21_refines (c) (rp) (hist) (hw : WfHist c hist) :
       (run c (init c rp) hist).2 = (specRun c (specInit c rp) hist).2
-What is proved carries the extra hypothesis `c.gran = false ∨ c.readOnResp = false`
-("granularity is None or not read_on_resp").  In the excluded region the response-time
+What is proved carries the extra hypothesis `TrackOk c ∨ c.readOnResp = false`, where
+`TrackOk c := c.gran = false ∨ c.n = 1` ("granularity is None, or one chunk per word - the
+enable is a single bit -, or not read_on_resp"): exactly the complement of the open finding
+F5 (read_on_resp with a granularity of >= 2 chunks).  In the excluded region the response-time
 tracking (storage.py:126-146) selects on bit 0 of the write enable only and forwards the
 whole write word, i.e. ignores the write mask; witness below (`f5_witness_*`), reproduced on
 the real component by the harness.  `WfHist` = per cycle distinct write rows (the property's
@@ -31,9 +33,9 @@ All theorems are for every depth, every number of read ports (`rp`) and write po
 namespace TxV.MemoryBank
 open TxV.BankMem
 
--- OBLIGATION c21_refines_partial : for every configuration with (granularity = None or not read_on_resp) and every history with distinct write rows per cycle, everything the bank outputs in every cycle (read_req/write done bits, read_resp data, ready bits of every read port) equals the output of the specification "ideal memory + per-port queue of pending responses"; ADDED HYPOTHESIS: granularity = None ∨ ¬read_on_resp (F5)
+-- OBLIGATION c21_refines_partial : for every configuration outside the open finding F5 and every history with distinct write rows per cycle, everything the bank outputs in every cycle (read_req/write done bits, read_resp data, ready bits of every read port) equals the output of the specification "ideal memory + per-port queue of pending responses"; ADDED HYPOTHESIS (exact complement of F5): granularity = None ∨ one chunk per word (mask width 1) ∨ ¬read_on_resp
 theorem c21_refines_partial (c : Cfg) (rp : Nat) (hist : List In)
-    (hF5 : c.gran = false ∨ c.readOnResp = false) (hw : WfHist c hist) :
+    (hF5 : TrackOk c ∨ c.readOnResp = false) (hw : WfHist c hist) :
     (run c (init c rp) hist).2 = (specRun c (specInit c rp) hist).2 := by
   obtain ⟨hi, ha⟩ := init_inv c rp
   have := (run_refines c (init c rp) hist hF5 hw hi).1
@@ -69,7 +71,7 @@ theorem c21_order (c : Cfg) (rp k : Nat) (hk : k < rp) (hist : List In) :
 
 -- OBLIGATION c21_req_ready : in every reachable state (same hypotheses) read_req of a port is ready iff fewer than two responses are pending there, it executes iff attempted and ready, and read_resp is ready iff a response is pending
 theorem c21_req_ready (c : Cfg) (rp : Nat) (hist : List In) (i : In)
-    (hF5 : c.gran = false ∨ c.readOnResp = false) (hw : WfHist c hist) (hwi : WfIn c i) (k : Nat) (p : Port)
+    (hF5 : TrackOk c ∨ c.readOnResp = false) (hw : WfHist c hist) (hwi : WfIn c i) (k : Nat) (p : Port)
     (hp : (run c (init c rp) hist).1.ports[k]? = some p) :
     ∃ o, (step c (run c (init c rp) hist).1 i).2.ports[k]? = some o ∧
       (o.reqRdy = true ↔ (absPort c p).length < 2) ∧
@@ -79,8 +81,8 @@ theorem c21_req_ready (c : Cfg) (rp : Nat) (hist : List In) (i : In)
   obtain ⟨hi, _⟩ := init_inv c rp
   have hinv := (run_refines c (init c rp) hist hF5 hw hi).2.2
   generalize (run c (init c rp) hist).1 = s at hp hinv
-  have hpr := (port_refines c s.mem i.writes p (reqAt i k) (respAt i k) hF5 hwi.1
-    (fun x hx => by rw [hinv.1]; exact reqAt_lt c i hwi k x hx) (hinv.2 p (List.mem_of_getElem? hp))).1
+  have hpr := (port_refines c s.mem i.writes p (reqAt i k) (respAt i k) hF5 hinv.2.1 hwi.1
+    (fun x hx => by rw [hinv.1]; exact reqAt_lt c i hwi k x hx) (hinv.2.2 p (List.mem_of_getElem? hp))).1
   refine ⟨(portStep c s.mem i.writes p (reqAt i k) (respAt i k)).2, by simp [step, List.getElem?_mapIdx, hp], ?_⟩
   have h2 := congrArg Prod.snd hpr
   simp only at h2
@@ -92,7 +94,7 @@ theorem c21_req_ready (c : Cfg) (rp : Nat) (hist : List In) (i : In)
 
 -- OBLIGATION c21_pending_le_two : at most two responses are ever pending per port, and the model state represents the specification state (invariant over all reachable states)
 theorem c21_pending_le_two (c : Cfg) (rp : Nat) (hist : List In)
-    (hF5 : c.gran = false ∨ c.readOnResp = false) (hw : WfHist c hist) :
+    (hF5 : TrackOk c ∨ c.readOnResp = false) (hw : WfHist c hist) :
     (specRun c (specInit c rp) hist).1 = abs c (run c (init c rp) hist).1 ∧
     ∀ p ∈ (run c (init c rp) hist).1.ports, (absPort c p).length ≤ 2 := by
   obtain ⟨hi, ha⟩ := init_inv c rp
@@ -114,18 +116,30 @@ example :
        ⟨[some 3, none], [false, false], [some ⟨1, 0xCD, 1⟩]⟩,
        ⟨[none, none], [true, false], [some ⟨1, 0x12, 1⟩]⟩,
        ⟨[none, none], [true, false], [some ⟨2, 0x34, 1⟩]⟩]
-    WfHist c hist ∧ (c.gran = false ∨ c.readOnResp = false) ∧
+    WfHist c hist ∧ (TrackOk c ∨ c.readOnResp = false) ∧
     (run c (init c 2) hist).2.map (fun o => o.ports.map (·.resp)) =
       [[none, none], [none, none], [none, some 0xAB], [none, none], [some 0x12, none], [some 0x34, none]] ∧
     (run c (init c 2) hist).2.map (fun o => o.ports.map (·.reqRdy)) =
       [[true, true], [true, true], [true, true], [false, true], [false, true], [true, true]] := by
   decide
 
+/-- non-vacuity of the single-chunk case: read_on_resp with granularity 8 on an 8-bit word (one
+    enable bit); a write with enable 0 and one with enable 1 hit the row pending in the overflow
+    buffer; the response returns the response-time contents -/
+example :
+    let c : Cfg := ⟨4, true, 8, 1, false, true⟩
+    let hist : List In :=
+      [⟨[none], [false], [some ⟨1, 0xAB, 1⟩]⟩, ⟨[some 1], [false], [none]⟩, ⟨[some 2], [false], [none]⟩,
+       ⟨[none], [false], [some ⟨1, 0xCD, 0⟩]⟩, ⟨[none], [false], [some ⟨1, 0xEF, 1⟩]⟩, ⟨[none], [true], [none]⟩]
+    WfHist c hist ∧ (TrackOk c ∨ c.readOnResp = false) ∧
+    ((run c (init c 1) hist).2.map (fun o => o.ports.map (·.resp))).getLast? = some [some 0xEF] := by
+  decide
+
 /-- F5 witness (model level; the same history is run against the real component by the
     harness): `read_on_resp` with granularity, 2 chunks of 4 bits.  Row 1 holds 0xAB, the
     request for it waits in the overflow buffer, a write of the high chunk only (mask 0b10)
     makes the row 0xCB, but the response still returns 0xAB: model and specification differ,
-    so the hypothesis `gran = false ∨ readOnResp = false` of `c21_refines_partial` cannot be
+    so the hypothesis `TrackOk c ∨ readOnResp = false` of `c21_refines_partial` cannot be
     dropped. -/
 example :
     let c : Cfg := ⟨4, true, 4, 2, false, true⟩
